@@ -177,7 +177,9 @@ def cone(vfile):
         except OSError:
             continue
         src = re.sub(r"\(\*.*?\*\)", "", src, flags=re.S)
-        for m in re.finditer(r"From\s+RP2V\s+Require\s+(?:Import|Export)\s+((?:[A-Za-z_][A-Za-z0-9_.]*\s*)+)\.", src):
+        # lazy match up to the first "." that ends a sentence: the former nested-quantifier pattern backtracked exponentially
+        # on the identifier-only text that follows the imports (minutes on files with several import sentences)
+        for m in re.finditer(r"From\s+RP2V\s+Require\s+(?:Import|Export)\s+(.*?)\.(?=\s|$)", src, flags=re.S):
             for mod in m.group(1).split():
                 mod = mod.rstrip(".")
                 todo.append("theories/" + mod.replace(".", "/") + ".v")
